@@ -232,7 +232,9 @@ func main() {
 				Id: "verif-c08", HandlerTimeout: 100 * time.Millisecond,
 			})
 			// set on the machine: New's option clone drops Opts.HandlerDeadline / HandlerBackoff
-			m.HandlerDeadline = 100 * time.Millisecond
+			// deadline well above the backoff: the backoff window, not the deadline, decides when
+			// mutations are accepted again
+			m.HandlerDeadline = 400 * time.Millisecond
 			m.HandlerBackoff = 50 * time.Millisecond
 			var timeouts atomic.Int32
 			m.OnError(func(_ *am.Machine, err error) {
@@ -244,7 +246,7 @@ func main() {
 			returned := make(chan struct{})
 			stall := func() {
 				if armed.CompareAndSwap(true, false) {
-					time.Sleep(600 * time.Millisecond)
+					time.Sleep(1100 * time.Millisecond)
 					close(returned)
 				}
 			}
